@@ -37,7 +37,7 @@ const cDriverSrc = `
 #define WUFFS_CONFIG__MODULE__XZ
 #include SNAPSHOT
 
-// Protocol (stdin): 1 byte format 'L' | 'X', u32le n, u32le srcChunk, u32le dstChunk, n bytes.
+// Protocol (stdin): 1 byte format 'L' (LZMA file) | 'M' (raw LZMA2 chunk sequence, std/lzma with the format-extension quirk) | 'X' (XZ file), u32le n, u32le srcChunk, u32le dstChunk, n bytes.
 // srcChunk == 0: the whole input is presented at once (closed); otherwise it is fed srcChunk bytes at a
 // time.  dstChunk == 0: a destination buffer big enough for everything; otherwise dstChunk bytes,
 // drained after every call.
@@ -74,9 +74,13 @@ int main(void) {
 
     wuffs_base__status st;
     wuffs_base__io_transformer* t = NULL;
-    if (f == 'L') {
+    if (f == 'L' || f == 'M') {
       st = wuffs_lzma__decoder__initialize(&g_dec.lzma, sizeof g_dec.lzma, WUFFS_VERSION,
                                            WUFFS_INITIALIZE__DEFAULT_OPTIONS);
+      if (f == 'M' && wuffs_base__status__is_ok(&st)) {
+        // raw LZMA2 chunk sequence: format extension 0x02, dictionary-size code 0 (4 KiB), as std/xz sets it
+        st = wuffs_lzma__decoder__set_quirk(&g_dec.lzma, WUFFS_LZMA__QUIRK_FORMAT_EXTENSION, 0x02);
+      }
       t = wuffs_lzma__decoder__upcast_as__wuffs_base__io_transformer(&g_dec.lzma);
     } else {
       st = wuffs_xz__decoder__initialize(&g_dec.xz, sizeof g_dec.xz, WUFFS_VERSION,
